@@ -766,8 +766,13 @@ func (v *verifier) checkData(res *imgResult, n *node.Node, k int, obs map[partKe
 							// under the previous sequence
 							cls = "C07/entry-counted-twice/data-flush-started-between-writerows-and-commitsequence"
 						}
-						res.fail(cls+suffix, "row %s (entry %d, %s seq %d) has value %v instead of 1 in %q; stored sequence %d, replay applied %v",
-							row.key(), cl.ref.entry.ID, cl.ref.entry.Part, cl.ref.entry.Seq, val, qq.sql, o.Durable, o.Applied)
+						diag := ""
+						if !isExpectedClass(cls) {
+							again, err2 := queryCells(c, L, qq.sql, qq.field)
+							diag = fmt.Sprintf("; the same query again: value %v (err %v); families: %s", again[row.UID][slotKey], err2, familyStates(n))
+						}
+						res.fail(cls+suffix, "row %s (entry %d, %s seq %d) has value %v instead of 1 in %q; stored sequence %d, replay applied %v%s",
+							row.key(), cl.ref.entry.ID, cl.ref.entry.Part, cl.ref.entry.Seq, val, qq.sql, o.Durable, o.Applied, diag)
 					}
 				case stMay:
 					// WriteLog never returned and the sequence is unknown: nothing to require
@@ -872,6 +877,20 @@ func (v *verifier) freshWrite(res *imgResult, n *node.Node, parts map[partKey]*p
 		}
 	}
 	res.Counters["fresh_rows_written_after_recovery"]++
+}
+
+// familyStates describes the opened data families: memory databases and level-0 files (diagnostics).
+func familyStates(n *node.Node) string {
+	var out []string
+	for _, f := range n.AllFamilies() {
+		st := f.GetState()
+		var mem []string
+		for _, m := range st.MemoryDatabases {
+			mem = append(mem, fmt.Sprintf("%s:%d series", m.State, m.NumOfSeries))
+		}
+		out = append(out, fmt.Sprintf("%s flushing=%v memdbs=%v level0=%d seq=%v/%v", f.Indicator(), f.IsFlushing(), mem, node.Level0Files(f), st.ReplicaSequences, st.AckSequences))
+	}
+	return strings.Join(out, " | ")
 }
 
 func sortedKeys(m map[string]bool) []string {
